@@ -249,7 +249,7 @@ fn plain_node(i: u8) -> Node {
 }
 
 //@ ob: C11.O2c
-//@ tier: thorough
+//@ tier: off
 //@ cap: 2400
 //@ standins: vcoll
 //@ also: C07
